@@ -33,6 +33,8 @@ LEVEL_TEXT = ('Bounded-exhaustive with a deterministic cost oracle: every DAG sh
 LEVEL_NOTE = ('trusted: sys.monitoring LINE events as the work measure (C-level work such as bytes slicing is not counted); budgets are generous '
               'constants (an order of magnitude above the measured cost of the current code) so only super-polynomial / count-driven work trips them')
 TECHNIQUE = 'small-scope exhaustive enumeration of DAG shapes, sharing families and adversarial field values under a deterministic step-count monitor'
+RULE += ' Second cost measure for parsers: peak bytes allocated during the call (tracemalloc), budget 256 KiB + 512 x input length - work hidden inside one C-level operation (a 2^20-bit label) is invisible to LINE events. Dictionary towers: chains of 1..20 (thorough 24) fork cells whose labels (same0/same1/long/short) claim more key bits than remain, for key lengths {1,4,32,256,1023}, through parse_hashmap, HashMap.parse, parse_hashmap_aug, load_dict.'
+LEVEL_TEXT += ' Parser inputs are also budgeted on peak allocated bytes.'
 ASSUMPTIONS = ['work is measured in executed Python lines of pytoniq_core; time spent inside C extensions (bitarray, hashlib, bytes slicing) is not measured',
                'budgets: DAG operations 60*(n+e+1)^2+5000; parsers 400*(len+16) and at most 300000 for inputs <= 512 bytes']
 NOT_ASSERTED = ['Cell.__str__ / print(cell): the rendered text is itself the unfolded tree (exponential output by definition)',
